@@ -26,6 +26,9 @@ var (
 )
 
 // pathFor writes the text once per process and returns its path.
+// PathFor writes the text once per process and returns its path.
+func PathFor(text string) string { return pathFor(text) }
+
 func pathFor(text string) string {
 	writtenMu.Lock()
 	defer writtenMu.Unlock()
